@@ -202,6 +202,24 @@ def estimateNfModel (gmin gmax nfmin nfmax : α) : Except NfErr (α × α × α)
 /-- `_update_dual_stage`: a dual-stage entry whose `gain_min` is below its preamp's is rejected -/
 def dualStageOk (gainMin preGainMin : α) : Bool := !decide (gainMin < preGainMin)
 
+/-- what `_update_dual_stage` gives a dual-stage library entry: `p_max` is the BOOSTER stage's (the stage that
+delivers the output power), `gain_flatmax` the sum of both stages, the NF stages are the two entries; the
+entry's own `gain_min` must not be below the preamp's (`none` = EquipmentConfigError) -/
+structure StageLimits (α : Type) where
+  pMax : α
+  gainFlatmax : α
+  gainMin : α
+
+structure DualLimits (α : Type) where
+  pMax : α
+  gainFlatmax : α
+  gainMin : α
+
+def updateDualStage (pre boost : StageLimits α) (gainMin : α) : Option (DualLimits α) :=
+  if dualStageOk gainMin pre.gainMin then
+    some { pMax := boost.pMax, gainFlatmax := boost.gainFlatmax + pre.gainFlatmax, gainMin := gainMin }
+  else none
+
 /-! ### `Amp.from_json`: which NF definition a library entry yields, or how it is rejected -/
 
 /-- result: the `type_def` whose model is built, or the error kind (`EquipmentConfigError` / `KeyError`).
